@@ -56,6 +56,14 @@ def cells(tier):
                     if tier == "quick" and bet == "agrapa" and n == 3 and N != "inf":
                         continue      # the exact normaliser needs ~30-50 s for these: thorough tier
                     out.append(dict(kind="equivalence", method=["betting_mart", "bet", bet], n=n, N=N, ut=ut, ro=True, fixed={}))
+    # integer-typed samples (0/1 tallies given as ints): the statistic must be the same function of the values
+    for m in nnm.METHODS:
+        if m[2] in ("shrink_trunc", "agrapa", "optimal_comparison") or m[0] == "kaplan_kolmogorov":
+            continue
+        for N in ("inf", 5):
+            if N not in nnm.n_grid(m, 2) and N != 5:
+                continue
+            out.append(dict(kind="definition", method=list(m), n=2, N=N, ut="plur", ro=True, fixed={}, xk="int01"))
     out.append(dict(kind="inverse"))
     return out
 
@@ -167,7 +175,7 @@ def _definition(cell, mode, stats):
     n = cell["n"]
 
     def harness(ex):
-        inst = nnm.build(ex, cell)
+        inst = nnm.build(ex, cell, x_kind=cell.get("xk", "real"))
         u, t = R(inst.u), R(inst.t)
         strict = regular_strict(inst)
         k = nnm.split_by_first_irregular(ex, nnm.regular_conds(inst))
@@ -476,7 +484,7 @@ def replay(f):
                 bad.append(f"lam_to_eta({lam},{mu}) = {d} (u={u})")
         return dict(reproduced=bool(bad), detail="; ".join(bad) or "held")
     T, NMmod = nnm.real_instance(cell, inp)
-    x = np.array([nnm.fl(v) for v in inp["x"]])
+    x = np.array([int(F(str(v))) for v in inp["x"]]) if cell.get("xk") == "int01" else np.array([nnm.fl(v) for v in inp["x"]])
     x0 = x.copy()
     n = len(x)
     bad = []
